@@ -142,13 +142,22 @@ def check(case, st):
             if is_rev:
                 D = dict(reversed(list(D.items())))
             labels = gen.labels_for(sch, N)
-            M = spell(D, cont, spin) if cont in ("dictperm", "dictrep", "dictdup") else gen.build(cont, spell(D, "dictrep", spin) if is_rep else D)
+            late = {}
+            if setmap and len(D) >= 2:
+                # the terms mentioning the last variable are added AFTER the enumeration was chosen (a brand-new label then)
+                late = {k: v for k, v in D.items() if labels[-1] in k}
+                if len(late) == len(D) or len({l for k in D if k not in late for l in k}) < 2:
+                    late = {}
+            M = spell(D, cont, spin) if cont in ("dictperm", "dictrep", "dictdup") else gen.build(
+                cont, spell(D, "dictrep", spin) if is_rep else {k: v for k, v in D.items() if k not in late})
             if setmap:
                 # convert once BEFORE the enumeration is changed: nothing may remember the old one
                 for _t in ("to_pubo", "to_puso", "to_qubo", "to_quso"):
                     if not (_t in ("to_qubo", "to_quso") and deg > 2):
                         call(getattr(M, _t))
                 gen.permute_mapping(M, setmap)
+                for k, v in late.items():
+                    M[k] += v
             tsrc = rp.tt(D, labels, spin)
             before = snap(M)
             st.extra["models_built"] = st.extra.get("models_built", 0) + 1
